@@ -1,5 +1,5 @@
 \* C13 quick: kinds log/span/metric x extents none/point/range; header per kind plus <= 2 extra
-\* properties: every (key, shape) pair once (21 atoms incl. a re-entrant value, 29 composites over 8 inner
+\* properties: every (key, shape) pair once (23 atoms incl. a re-entrant value and Display-only / Debug-only captured values, 29 composites over 8 inner
 \* atoms, 3 user keys, 4 keys needing escaping x 6 shapes, 18 well-known pairs), all ordered pairs over 24
 \* core properties (duplicates, F17 trigger, ids, re-entrant value, escaped key); 24 metric headers
 \* (agg x value shape).  Transcription with the F8/F9 repairs; F17 carved out.
